@@ -75,7 +75,7 @@ func init() {
 			"the document produced by the same entry point with a healthy bytes.Buffer is 'the complete document'; its completeness is checked against the hand-written marker list of each program",
 			"a destination writer honours the io.Writer contract (n < len(p) implies a non-nil error); writers returning short counts without an error are not generated",
 			"after the destination writer itself reported a failure the bytes it holds are not judged (a partial prefix is unavoidable)",
-			"whether a cancelled context or a catalogued failing program must produce an error is not judged, only that an error goes with zero bytes and nil with the complete document",
+			"a context that is cancelled / past its deadline before the call must make the render return an error (it is among the error causes the statement lists and every entry point documents the check on entry); whether a catalogued failing program must produce an error is not judged, only that an error goes with zero bytes and nil with the complete document",
 			"a fresh engine is built for every render, so cached templates of a previous (failed) render play no role",
 		},
 		MinNonTrivial: func(ctx core.Ctx) int { return len(c12Enum(ctx)) * 3 / 4 },
@@ -928,7 +928,11 @@ func (p *c12) exec(ctx core.Ctx, c c12Case) core.Obs {
 	if c.Ctx != "live" {
 		o.Cell("ctx/" + c.Ctx + "/" + path + "/returned-" + c12NilErr(hres.err))
 		if hres.err == nil {
-			catalogued = false // statement does not demand an error; nothing was injected from its point of view
+			// "cancelled context" is one of the causes of an error the statement lists, and every
+			// entry point documents the check on entry: a context that is dead before the call must
+			// not produce a document
+			catalogued = false
+			o.Fail(c, "dead-context-but-rendered/"+path+"/"+c.Ctx, "the context was %s before the call, the render returned nil and wrote %d bytes\n%s", c.Ctx, len(hw.got), c12Describe(c))
 		}
 		// dead context and a writer that fails on the first byte
 		fw := &c12Writer{sched: []c12Fail{{At: 0, Accept: "none"}}, sticky: true}
